@@ -133,14 +133,15 @@ Variable now : Z.          (* modification time given to files written by this r
 Definition newer (g : option entry) (mt : Z) : bool :=
   match g with Some (File _ gmt) => Z.ltb mt gmt | _ => false end.
 
-(* UpsertLastModTime: `previous := fileNameToLastModTime[name]; if !current.After(previous) {return current, false}`.
-   The map is empty when the process starts and each path gets one event, so `previous` is the zero time.Time:
-   January 1, year 1, 00:00:00 UTC = -62135596800 s relative to the Unix epoch.  A file first seen with a
-   modification time at or before that instant counts as "not updated" and its handler returns without doing
-   anything (no error).  Every later instant - before the Unix epoch, the epoch itself, the far future - is
-   "updated".  For a directory os.Stat gives the directory's own time, which the model does not have. *)
+(* UpsertLastModTime: `previous, seen := fileNameToLastModTime[name]; if seen && !current.After(previous) {return
+   current, false}`.  The map is empty when the process starts and each path gets one event, so every file is seen for
+   the first time and is "updated" whatever its modification time: the function plays no part in a non-watch run.
+   REGRESSION VARIANT, not the current code: before commit 103800e the test was `!current.After(previous)` with
+   `previous` the zero time.Time for an unseen file (January 1, year 1, 00:00:00 UTC = -62135596800 s relative to the
+   Unix epoch): a file dated at or before that instant counted as "not updated" and its handler returned without
+   doing anything (no error) - see [effect_zero_compared] below. *)
 Definition go_zero_time : Z := (-62135596800 * 1000000000)%Z.
-Definition first_seen_updated (e : entry) : bool :=
+Definition after_go_zero_time (e : entry) : bool :=
   match e with File _ mt => Z.ltb go_zero_time mt | Dir => true end.
 
 (* HandleEvent for a Create event on p, split into what it reads (this function: the decision, from the tree)
@@ -148,8 +149,8 @@ Definition first_seen_updated (e : entry) : bool :=
    - name ends in _templ.go: os.Stat(source); exists -> nothing; absent -> keep ? nothing : os.Remove(p).
      os.Remove of a directory that is not empty fails: a warning is logged, no error is counted, nothing changes
      (wf_tree: a directory called *_templ.go always keeps a file no handler removes)
-   - UpsertLastModTime: os.Stat(p) fails -> nothing; modification time not After the zero time.Time -> nothing
-     ([first_seen_updated]; the map is empty at start and each path gets one event)
+   - UpsertLastModTime: os.Stat(p) fails -> nothing; otherwise "updated" (the map is empty at start and each path
+     gets one event: the file is seen for the first time, its modification time is not looked at)
    - not .templ -> nothing
    - .templ: lazy && goFileIsUpToDate -> nothing; else generate: parse/generate/gofmt error -> 1 error, no write;
              ok -> write the sibling (UpsertHash: the hash map is empty in a non-watch run, so always written):
@@ -170,7 +171,6 @@ Definition effect (t : fs) (p : path) : action * nat :=
       match t p with
       | None => (ANone, O)
       | Some e =>
-          if negb (first_seen_updated e) then (ANone, O) else
           match target_of p with
           | None => (ANone, O)
           | Some g =>
@@ -185,6 +185,14 @@ Definition effect (t : fs) (p : path) : action * nat :=
               end
           end
       end
+  end.
+
+(* REGRESSION VARIANT (before 103800e): anything that is not a _templ.go name and is dated at or before Go's zero
+   time is skipped; otherwise as [effect] *)
+Definition effect_zero_compared (t : fs) (p : path) : action * nat :=
+  match source_of p, t p with
+  | None, Some e => if after_go_zero_time e then effect t p else (ANone, O)
+  | _, _ => effect t p
   end.
 
 Definition apply_action (a : action) (t : fs) : fs :=
@@ -202,6 +210,11 @@ Definition handle (st : state) (p : path) : state :=
   {| tree := apply_action (fst (effect (tree st) p)) (tree st); errs := snd (effect (tree st) p) + errs st |}.
 (* handlers run one after the other in the order es *)
 Definition run (st : state) (es : list path) : state := fold_left handle es st.
+(* the same for the regression variant *)
+Definition handle_zero_compared (st : state) (p : path) : state :=
+  {| tree := apply_action (fst (effect_zero_compared (tree st) p)) (tree st);
+     errs := snd (effect_zero_compared (tree st) p) + errs st |}.
+Definition run_zero_compared (st : state) (es : list path) : state := fold_left handle_zero_compared es st.
 
 (* cmd.go Run: events are taken from the channel in walk order; `sem` admits at most w handlers at a time;
    a started handler has made its reads, and finishes (its write, its error report) at any later moment.
@@ -276,23 +289,10 @@ Definition dir_name_ok (l : listing) (pe : path * entry) : bool :=
            | Some _ => stable_child l (fst pe)
            end
   end.
-(* a template outside skipped directories carries a modification time After Go's zero time.Time (see
-   [first_seen_updated]; without this the full statement is false: props/C15.v, C15_zero_time_refuted).  No other
-   condition on modification times: negative, zero, equal and arbitrarily large ones are all admitted. *)
-Definition mtime_ok (pe : path * entry) : bool :=
-  match snd pe with
-  | Dir => true
-  | File _ mt =>
-      if visible_dir (fst (fst pe)) then
-        match target_of (fst pe) with Some _ => Z.ltb go_zero_time mt | None => true end
-      else true
-  end.
-(* everything but the condition on modification times *)
-Definition wf_shape (generate : path -> bytes -> option bytes) (lazy : bool) (root : bytes) (l : listing) : bool :=
+(* no condition on modification times: any integers *)
+Definition wf_tree (generate : path -> bytes -> option bytes) (lazy : bool) (root : bytes) (l : listing) : bool :=
   nodupb (map fst l)
   && negb (matches_pattern root)
   && forallb (fun pe => forallb valid_name (full (fst pe)) && parent_ok l (fst pe)) l
   && forallb (dir_name_ok l) l
   && (negb lazy || forallb (lazy_ok generate l) l).
-Definition wf_tree (generate : path -> bytes -> option bytes) (lazy : bool) (root : bytes) (l : listing) : bool :=
-  wf_shape generate lazy root l && forallb mtime_ok l.
